@@ -20,8 +20,14 @@ RULE = ("every stage constructor of the table STAGES (one entry = how to build t
 EXHAUSTIVE = {"quick": False, "thorough": False}
 trusted_base = [
   "yielded VALUES are erased on both sides (C02 is about read counts; values belong to C01/C03/C04/C08/C09/C20)",
-  "a stage is observed through a counting iterator: one R event per __next__ call on the source (including the call "
-  "that finds it exhausted), one Y per item obtained from the stage, S / X at the first StopIteration / exception",
+  "a stage is observed through a counting iterator: R = the source delivered an item (or a tripwire source raised "
+  "instead), E = the source was asked and found exhausted (not an item read), Y = one item obtained from the stage, "
+  "S / X at the first StopIteration / exception; pulling stops there",
+  "sequential composition assumes a finished upstream stage answers further demands with 'end' without touching its "
+  "source (true for generators; builtin iterators such as map re-ask their source): no generated chain has a consumer "
+  "that asks again after the end (zcross and batched, which do, are used as first stage only)",
+  "data dependent stages (filter, takewhile, dropwhile, zcross) are run on the raw counting source only, whose item "
+  "values are their positions",
   "the tripwire position of a case is computed in Python (py_need); a wrong position only makes a case less sharp, "
   "both sides see the same source",
 ]
@@ -35,6 +41,10 @@ class Tripwire(Exception):
   pass
 
 
+class Runaway(Exception):
+  pass
+
+
 class Src(object):
   """Counting source: logs one R per __next__."""
   def __init__(self, log, sid, kind, n, mk):
@@ -44,11 +54,14 @@ class Src(object):
     return self
 
   def __next__(self):
-    self.log.append(["R", self.sid])
     if self.kind == "fin" and self.i >= self.n:
+      self.log.append(["E", self.sid])
       raise StopIteration
+    self.log.append(["R", self.sid])
     if self.kind == "trip" and self.i >= self.n:
       raise Tripwire()
+    if self.i >= 2000:      # an eager consumer of an endless source: stop it instead of filling the memory
+      raise Runaway()
     v = self.mk(self.i)
     self.i += 1
     return v
@@ -164,7 +177,8 @@ STAGES = {
   "filter.comb": mealy(lambda al, lit, s, p: al.comb.fb(3, .5)(s[0])),
   "CascadeFilter": mealy(lambda al, lit, s, p: al.CascadeFilter(1 - Z(al) ** -1, 1 + Z(al) ** -2)(s[0])),
   "CascadeFilter3": mealy(lambda al, lit, s, p: al.CascadeFilter(1 - Z(al) ** -1, 1 / (1 + .5 * Z(al) ** -2), Z(al) ** -1)(s[0])),
-  "zcross": mealy(lambda al, lit, s, p: al.zcross(s[0])),
+  "zcross": stage(lambda p: "(GZcross %s)" % L.nat(p[0]), lambda al, lit, s, p: al.zcross(s[0], hysteresis=p[0]),
+                  first=True, grid=lambda tier: [[0], [1], [3]], kind="zcross"),
   "zcross.first_sign": mealy(lambda al, lit, s, p: al.zcross(s[0], hysteresis=1, first_sign=1)),
   "clip": mealy(lambda al, lit, s, p: al.clip(s[0], 0, 3)),
   "clip.low_none": mealy(lambda al, lit, s, p: al.clip(s[0], None, 3)),
@@ -189,7 +203,12 @@ STAGES = {
   "TableLookup.phase": mealy(lambda al, lit, s, p: al.sin_table(.1, al.Stream(s[0]))),
   "elementwise.stream": mealy(lambda al, lit, s, p: al.lazy_math.absolute(al.Stream(s[0]))),
   "elementwise.generator": mealy(lambda al, lit, s, p: al.lazy_math.absolute(x for x in s[0])),
-  "elementwise.midi": mealy(lambda al, lit, s, p: al.midi2freq(al.Stream(s[0]))),
+  "elementwise.midi": mealy(lambda al, lit, s, p: al.midi2freq(al.Stream(s[0])), first=True),
+  "gammatone.klapuri": mealy(lambda al, lit, s, p: al.gammatone.klapuri(.3, .05)(s[0])),
+  "gammatone.slaney": mealy(lambda al, lit, s, p: al.gammatone.slaney(.3, .05)(s[0])),
+  "gammatone.sampled": mealy(lambda al, lit, s, p: al.gammatone.sampled(.3, .05)(s[0])),
+  "it.starmap": mealy(lambda al, lit, s, p: lit.starmap(_ident, al.Stream(s[0]).map(lambda x: (x,))), "any", "same"),
+  "elementwise.sin": mealy(lambda al, lit, s, p: al.lazy_math.sin(al.Stream(s[0])), first=True),
   "ParallelFilter0": stage(lambda p: "(GPar 0)", lambda al, lit, s, p: al.ParallelFilter()(s[0]), kind="par"),
   "ParallelFilter": stage(lambda p: "(GPar %s)" % L.nat(p[0]),
                           lambda al, lit, s, p: al.ParallelFilter(*[1 - Z(al) ** -(j + 1) for j in range(p[0])])(s[0]),
@@ -200,8 +219,8 @@ STAGES = {
                              nsrc=2, first=True, kind="zip"),
   "Stream.radd_stream": stage(lambda p: "(GZip %s)" % nl([0, 1]), lambda al, lit, s, p: al.Stream(s[1]).__radd__(s[0]),
                               nsrc=2, first=True, kind="zip"),
-  "it.izip": stage(lambda p: "(GZip %s)" % nl([0, 1]), lambda al, lit, s, p: lit.izip(s[0], s[1]), nsrc=2, first=True, kind="zip"),
-  "it.izip3": stage(lambda p: "(GZip %s)" % nl([0, 1, 2]), lambda al, lit, s, p: lit.izip(s[0], s[1], s[2]), nsrc=3, first=True, kind="zip"),
+  "it.izip": stage(lambda p: "(GZip %s)" % nl([0, 1]), lambda al, lit, s, p: lit.izip(s[0], s[1]), nsrc=2, first=True, tout="tup", kind="zip"),
+  "it.izip3": stage(lambda p: "(GZip %s)" % nl([0, 1, 2]), lambda al, lit, s, p: lit.izip(s[0], s[1], s[2]), nsrc=3, first=True, tout="tup", kind="zip"),
   "it.imap2": stage(lambda p: "(GZip %s)" % nl([0, 1]), lambda al, lit, s, p: lit.imap(lambda a, b: a + b, s[0], s[1]),
                     nsrc=2, first=True, kind="zip"),
   "filter.timevar_num": stage(lambda p: "(GZip %s)" % nl([0, 1]), lambda al, lit, s, p: (1 + al.Stream(s[1]) * Z(al) ** -1)(s[0]),
@@ -260,9 +279,8 @@ STAGES = {
   "chunks.array": stage(lambda p: "(GBlocks %s %s)" % (L.nat(p[0]), L.nat(p[0])),
                         lambda al, lit, s, p: al.chunks.array(s[0], size=p[0], dfmt="d"),
                         tout="bytes", grid=lambda tier: [[n] for n in range(1, 7)], kind="blocks"),
-  "it.batched": stage(lambda p: "(GBlocks %s %s)" % (L.nat(p[0]), L.nat(p[0])),
-                      lambda al, lit, s, p: lit.batched(s[0], p[0]), tin="any", tout="blk",
-                      grid=lambda tier: [[n] for n in range(1, 7)], kind="blocks"),
+  "it.batched": stage(lambda p: "(GBatched %s)" % L.nat(p[0]), lambda al, lit, s, p: lit.batched(s[0], p[0]),
+                      first=True, tout="other", grid=lambda tier: [[n] for n in range(1, 7)], kind="batched"),
   "it.pairwise": stage(lambda p: "(GBlocks 2 1)", lambda al, lit, s, p: lit.pairwise(s[0]), tin="any", tout="blk", kind="blocks"),
   "it.tee": stage(lambda p: "(GTee %s %s)" % (L.nat(p[0]), nl(p[1])), _tee_builder, first=True, grid=TEES, kind="tee"),
   # ---- overlap-add, STFT, resample ------------------------------------------------------------------
@@ -313,8 +331,10 @@ def expand(name, p):
     return [("mealy", [])]
   if k == "pad":
     return [("pad", [p[0]])]
-  if k == "cycle":
+  if k == "cycle" or k == "zcross":
     return [("mealy", [])]
+  if k == "batched":
+    return [("blocks", [p[0], p[0]])]
   if k == "blocks":
     if name == "it.pairwise":
       return [("blocks", [2, 1])]
@@ -424,6 +444,8 @@ def run_lazy(c):
 def ev_lit(e):
   if e[0] == "R":
     return "ER %s" % L.nat(e[1])
+  if e[0] == "E":
+    return "EE %s" % L.nat(e[1])
   if e[0] == "Y":
     return "EY"
   if e[0] == "S":
@@ -525,6 +547,8 @@ def chainable(tier):
 
 def out_type(name, tin):
   t = STAGES[name]["tout"]
+  if t == "blk" and tin != "num":
+    return "other"          # blocks of non-numbers cannot be overlap-added
   return tin if t == "same" else t
 
 
